@@ -32,6 +32,13 @@ Definition has_rec (t : lo) : bool :=
   | _, _ => false
   end.
 
+(* the asynchronous clean-up of a listing is running *)
+Definition in_purge (t : lo) : bool :=
+  match l_kind t, l_pc t with
+  | KList, (PPGet | PPDelCode | PPDelId | PPDelClaim | PPRmIdx) => true
+  | _, _ => false
+  end.
+
 Definition mk_rec (P : params) (t : lo) : mrec :=
   match l_kind t with
   | KAct l la _ => {| m_id := l_me t; m_listen := l; m_laddr := la; m_target := p_tgt P; m_taddr := p_taddr P |}
@@ -49,7 +56,7 @@ Proof. intros H. unfold okres. rewrite H. reflexivity. Qed.
 
 Lemma can_win_crit t : can_win t = true -> crit t = true.
 Proof.
-  unfold can_win, crit. destruct (l_kind t); destruct (l_pc t) as [| | | | | | | | | | | | | | e | | r | | r]; try discriminate; auto;
+  unfold can_win, crit. destruct (l_kind t); destruct (l_pc t) as [| | | | | | | | | | | | | | e | | r | | r | | | | | | |]; try discriminate; auto;
     destruct r; try discriminate; auto.
 Qed.
 
@@ -68,7 +75,10 @@ Lemma step_facts (P : params) (t : lo) (s : sh) (t' : lo) (s' : sh) :
   l_me t' = l_me t /\ l_kind t' = l_kind t
   /\ (expired s = true -> expired s' = true)
   /\ (crit t = false -> crit t' = true -> claim s = false /\ claim s' = true)
-  /\ (claim s = true -> claim s' = false -> expired s' = false -> crit t = true /\ crit t' = false)
+  /\ (claim s = true -> claim s' = false -> expired s' = false -> (crit t = true /\ crit t' = false) \/ in_purge t = true)
+  /\ (in_purge t' = true -> in_purge t = true \/ expired s = true)
+  /\ (l_kind t = KList -> expired s = false -> in_purge t = false ->
+      by_code s' = by_code s /\ by_id s' = by_id s /\ claim s' = claim s /\ mains s' = mains s)
   /\ (crit t = true -> crit t' = true -> claim s' = claim s)
   /\ (can_win t = false -> can_win t' = true -> expired s = false /\ (crit t = true \/ claim s = false))
   /\ ((mains s' = mains s /\ has_rec t' = has_rec t)
@@ -77,14 +87,14 @@ Lemma step_facts (P : params) (t : lo) (s : sh) (t' : lo) (s' : sh) :
   /\ (forall m, okres t' = Some m -> (okres t = Some m /\ can_win t' = can_win t) \/ (m = l_me t /\ can_win t' = true)).
 Proof.
   destruct t as [me k p snap f e]. unfold tstep. cbn [l_kind].
-  destruct k as [l la ok | | ].
+  destruct k as [l la ok | | | ].
   - (* activator *)
     unfold act_step; cbn [l_pc l_me l_fault l_snap l_err].
-    destruct p as [| | | | | | | | | | | | | | e0 | | r | | r]; try (destruct r as [m0| | | |e1|]);
+    destruct p as [| | | | | | | | | | | | | | e0 | | r | | r | | | | | | |]; try (destruct r as [m0| | | |e1| |]);
       cbn [use_claim create_cleanup use_admit Current leave fin];
       break_step; intros H; inversion H; subst; clear H;
-      cbn [crit can_win has_rec okres mk_rec l_kind l_pc l_me set_pc set_snap set_fault set_err finish
-           expired claim mains set_claim set_admit set_mains set_glob set_cidx set_by_code set_by_id del_main];
+      cbn [crit can_win has_rec okres in_purge mk_rec l_kind l_pc l_me set_pc set_snap set_fault set_err finish
+           expired claim mains by_code by_id set_claim set_admit set_tidx set_mains set_glob set_cidx set_by_code set_by_id del_main];
       (split; [reflexivity|]); (split; [reflexivity|]);
       repeat match goal with |- _ /\ _ => split end;
       try (intros; try discriminate; try congruence; auto; fail);
@@ -94,11 +104,11 @@ Proof.
       try (intros m Hm; inversion Hm; subst; auto; fail).
   - (* revoker *)
     unfold rev_step; cbn [l_pc l_me l_fault l_snap l_err].
-    destruct p as [| | | | | | | | | | | | | | e0 | | r | | r]; try (destruct r as [m0| | | |e1|]);
+    destruct p as [| | | | | | | | | | | | | | e0 | | r | | r | | | | | | |]; try (destruct r as [m0| | | |e1| |]);
       cbn [use_claim create_cleanup use_admit Current rleave];
       break_step; intros H; inversion H; subst; clear H;
-      cbn [crit can_win has_rec okres mk_rec l_kind l_pc l_me set_pc set_snap set_fault set_err finish
-           expired claim mains set_claim set_admit set_mains set_glob set_cidx set_by_code set_by_id del_main];
+      cbn [crit can_win has_rec okres in_purge mk_rec l_kind l_pc l_me set_pc set_snap set_fault set_err finish
+           expired claim mains by_code by_id set_claim set_admit set_tidx set_mains set_glob set_cidx set_by_code set_by_id del_main];
       (split; [reflexivity|]); (split; [reflexivity|]);
       repeat match goal with |- _ /\ _ => split end;
       try (intros; try discriminate; try congruence; auto; fail);
@@ -106,8 +116,20 @@ Proof.
       try (intros m Hm; inversion Hm; subst; auto; fail).
   - (* tick *)
     cbn [l_pc].
-    destruct p as [| | | | | | | | | | | | | | e0 | | r | | r]; try (destruct r as [m0| | | |e1|]); intros H; inversion H; subst; clear H;
-      cbn [crit can_win has_rec okres mk_rec l_kind l_pc l_me set_pc finish expired claim mains set_expired];
+    destruct p as [| | | | | | | | | | | | | | e0 | | r | | r | | | | | | |]; try (destruct r as [m0| | | |e1| |]); intros H; inversion H; subst; clear H;
+      cbn [crit can_win has_rec okres in_purge mk_rec l_kind l_pc l_me set_pc finish expired claim mains by_code by_id set_expired];
+      (split; [reflexivity|]); (split; [reflexivity|]);
+      repeat match goal with |- _ /\ _ => split end;
+      try (intros; try discriminate; try congruence; auto; fail);
+      try (left; split; reflexivity);
+      try (intros m Hm; inversion Hm; subst; auto; fail).
+  - (* listing + clean-up *)
+    unfold list_step; cbn [l_pc l_me l_fault l_snap l_err].
+    destruct p as [| | | | | | | | | | | | | | e0 | | r | | r | | | | | | |]; try (destruct r as [m0| | | |e1| |]);
+      cbn [use_claim create_cleanup use_admit purge_revoked Current andb];
+      break_step; intros H; inversion H; subst; clear H;
+      cbn [crit can_win has_rec okres in_purge mk_rec l_kind l_pc l_me set_pc set_snap set_fault set_err finish
+           expired claim mains by_code by_id set_claim set_admit set_tidx set_mains set_glob set_cidx set_by_code set_by_id del_main];
       (split; [reflexivity|]); (split; [reflexivity|]);
       repeat match goal with |- _ /\ _ => split end;
       try (intros; try discriminate; try congruence; auto; fail);
@@ -139,7 +161,8 @@ Section Inv.
     inv_own : forall m, In m (mains (fst s)) -> owned (snd s) m;
     inv_nodup : NoDup (map m_id (mains (fst s)));
     inv_ok : forall i t m, nth_error (snd s) i = Some t -> okres t = Some m -> m = l_me t /\ can_win t = true;
-    inv_has : forall i t, nth_error (snd s) i = Some t -> has_rec t = true -> In (mk_rec P t) (mains (fst s))
+    inv_has : forall i t, nth_error (snd s) i = Some t -> has_rec t = true -> In (mk_rec P t) (mains (fst s));
+    inv_purge : forall i t, nth_error (snd s) i = Some t -> in_purge t = true -> expired (fst s) = true
   }.
 
   Lemma nth_upd_cases {A} (l : list A) i j x y :
@@ -168,8 +191,8 @@ Section Inv.
     intros HI. unfold sys_step. destruct (nth_error (snd s) i) as [t|] eqn:Hi; [|exact HI].
     destruct (step t (fst s)) as [t' s'] eqn:Hst.
     destruct (step_facts P t (fst s) t' s' Hst)
-      as (Fme & Fkind & Fexp & Fenter & Frel & Fstay & Fwin & Fmains & Fok).
-    destruct HI as [Iids Ifree Icrit Iwin Iown Indup Iok Ihas].
+      as (Fme & Fkind & Fexp & Fenter & Frel & Fpur & _ & Fstay & Fwin & Fmains & Fok).
+    destruct HI as [Iids Ifree Icrit Iwin Iown Indup Iok Ihas Ipurge].
     assert (Hexp0 : expired s' = false -> expired (fst s) = false).
     { intros H. destruct (expired (fst s)) eqn:E; [rewrite (Fexp eq_refl) in H; discriminate | reflexivity]. }
     constructor; cbn [fst snd].
@@ -187,9 +210,10 @@ Section Inv.
         * rewrite (Fstay eq_refl eq_refl) in Hcl. rewrite (Ifree Hexp0 Hcl _ _ Hi) in Ec. discriminate.
         * destruct (Fenter eq_refl eq_refl) as [_ Hc]. congruence.
       + destruct (claim (fst s)) eqn:Ecl.
-        * destruct (Frel eq_refl Hcl Hexp) as [Hct _].
-          destruct (crit ta) eqn:Eca; [|reflexivity]. exfalso. apply Hna.
-          exact (Icrit Hexp0 _ _ _ _ Hi Ha' Hct Eca).
+        * destruct (Frel eq_refl Hcl Hexp) as [[Hct _]|Hp].
+          { destruct (crit ta) eqn:Eca; [|reflexivity]. exfalso. apply Hna.
+            exact (Icrit Hexp0 _ _ _ _ Hi Ha' Hct Eca). }
+          { rewrite (Ipurge _ _ Hi Hp) in Hexp0. discriminate. }
         * exact (Ifree Hexp0 eq_refl _ _ Ha').
     - (* crit unique *)
       intros Hexp a b ta tb Ha Hb Hca Hcb. specialize (Hexp0 Hexp).
@@ -271,6 +295,11 @@ Section Inv.
           assert (Hid : m_id (mk_rec P ta) = l_me ta) by (unfold mk_rec; destruct (l_kind ta); reflexivity).
           rewrite Hid. destruct (Nat.eqb (l_me ta) (l_me t)) eqn:E; [|reflexivity].
           apply Nat.eqb_eq in E. exfalso. apply Hna. exact (Iids _ _ _ _ Hi Ha' (eq_sym E)).
+    - (* a clean-up runs only once the activation period is over *)
+      intros a ta Ha Hp.
+      destruct (nth_upd_cases _ _ _ _ _ Ha) as [(<- & -> & _)|(Hna & Ha')].
+      + destruct (Fpur Hp) as [Hold|He]; [apply Fexp; exact (Ipurge _ _ Hi Hold)|apply Fexp; exact He].
+      + apply Fexp. exact (Ipurge _ _ Ha' Hp).
   Qed.
 
   (* callers that have not started (or were rejected on their parameters) *)
@@ -299,6 +328,8 @@ Section Inv.
     - intros i t m Hi Hpc. destruct (fresh_classes t (F _ _ Hi)) as (_ & _ & E). exfalso. exact (E m Hpc).
     - intros i t Hi Hrec. exfalso. destruct (F _ _ Hi) as [H|[e H]]; unfold has_rec in Hrec; rewrite H in Hrec;
         destruct (l_kind t); discriminate.
+    - intros i t Hi Hp. exfalso. destruct (F _ _ Hi) as [H|[e H]]; unfold in_purge in Hp; rewrite H in Hp;
+        destruct (l_kind t); discriminate.
   Qed.
 
   Theorem inv_all s sched : start_ok s -> Inv (srun s sched).
@@ -314,7 +345,7 @@ Section Inv.
       nth_error (snd (srun s sched)) i = Some ti -> nth_error (snd (srun s sched)) j = Some tj ->
       l_pc ti = PDone (ROk mi) -> l_pc tj = PDone (ROk mj) -> i = j.
   Proof.
-    intros H i j ti tj mi mj Hi Hj Hpi Hpj. destruct (inv_all s sched H) as [_ _ _ Iwin _ _ Iok _].
+    intros H i j ti tj mi mj Hi Hj Hpi Hpj. destruct (inv_all s sched H) as [_ _ _ Iwin _ _ Iok _ _].
     apply (Iwin i j ti tj Hi Hj); [apply (Iok _ _ _ Hi (okres_done _ _ Hpi)) | apply (Iok _ _ _ Hj (okres_done _ _ Hpj))].
   Qed.
 
@@ -334,13 +365,13 @@ Section Inv.
     length (mains (fst s')) <= 1 /\
     (forall m, In m (mains (fst s')) -> exists t, In t (snd s') /\ l_pc t = PDone (ROk (m_id m))).
   Proof.
-    intros H s' Hdone. destruct (inv_all s sched H) as [_ _ _ Iwin Iown Indup Iok _]. fold s' in Iwin, Iown, Indup, Iok.
+    intros H s' Hdone. destruct (inv_all s sched H) as [_ _ _ Iwin Iown Indup Iok _ _]. fold s' in Iwin, Iown, Indup, Iok.
     assert (W : forall m, In m (mains (fst s')) -> exists i t, nth_error (snd s') i = Some t /\ l_me t = m_id m /\ can_win t = true
                                                    /\ l_pc t = PDone (ROk (m_id m))).
     { intros m Hm. destruct (Iown m Hm) as (k & t & Hk & Hid & Hrec & _).
       destruct (Hdone t (nth_error_In _ _ Hk)) as [r Hr]. exists k, t.
       unfold has_rec in Hrec. rewrite Hr in Hrec.
-      destruct (l_kind t) eqn:Ek; try discriminate. destruct r as [m0| | | |e|]; try discriminate.
+      destruct (l_kind t) eqn:Ek; try discriminate. destruct r as [m0| | | |e| |]; try discriminate.
       destruct (Iok _ _ _ Hk (okres_done _ _ Hr)) as [-> Hw]. rewrite Hid in *. tauto. }
     split.
     - apply (length_le_1 m_id); [exact Indup|]. intros a b Ha Hb.
@@ -355,7 +386,7 @@ Section Inv.
     forall t e, In t (snd (srun s sched)) -> l_pc t = PDone (RErr e) ->
     forall m, In m (mains (fst (srun s sched))) -> m_id m <> l_me t.
   Proof.
-    intros H t e Ht Hpc m Hm Heq. destruct (inv_all s sched H) as [Iids _ _ _ Iown _ _ _].
+    intros H t e Ht Hpc m Hm Heq. destruct (inv_all s sched H) as [Iids _ _ _ Iown _ _ _ _].
     destruct (Iown m Hm) as (k & tk & Hk & Hid & Hrec & _).
     apply In_nth_error in Ht. destruct Ht as [j Hj].
     assert (k = j) by (apply (Iids _ _ _ _ Hk Hj); congruence). subst k.
@@ -368,7 +399,7 @@ Section Inv.
     m_target m = p_tgt P /\ m_taddr m = p_taddr P /\
     exists t ok, In t (snd (srun s sched)) /\ l_me t = m_id m /\ l_kind t = KAct (m_listen m) (m_laddr m) ok.
   Proof.
-    intros H m Hm. destruct (inv_all s sched H) as [_ _ _ _ Iown _ _ _].
+    intros H m Hm. destruct (inv_all s sched H) as [_ _ _ _ Iown _ _ _ _].
     destruct (Iown m Hm) as (k & t & Hk & Hid & _ & (ok & Hkind) & Ht & Ha).
     split; [exact Ht|]. split; [exact Ha|]. exists t, ok. split; [eapply nth_error_In; exact Hk|tauto].
   Qed.
@@ -381,11 +412,32 @@ Section Inv.
       m = l_me t /\
       In {| m_id := m; m_listen := l; m_laddr := la; m_target := p_tgt P; m_taddr := p_taddr P |} (mains (fst (srun s sched))).
   Proof.
-    intros H t m l la ok Ht Hk Hpc. destruct (inv_all s sched H) as [_ _ _ _ _ _ Iok Ihas].
+    intros H t m l la ok Ht Hk Hpc. destruct (inv_all s sched H) as [_ _ _ _ _ _ Iok Ihas _].
     apply In_nth_error in Ht. destruct Ht as [i Hi].
     destruct (Iok _ _ _ Hi (okres_done _ _ Hpc)) as [-> _]. split; [reflexivity|].
     assert (Hrec : has_rec t = true) by (unfold has_rec; rewrite Hk, Hpc; reflexivity).
     assert (X := Ihas _ _ Hi Hrec). unfold mk_rec in X. rewrite Hk in X. exact X.
+  Qed.
+
+  (* read paths with side effects (listing + its asynchronous clean-up): while the activation period lasts — the only time
+     a code can still be activated and a claim can guard a decision in flight — no step of a listing, at whatever point
+     of its call or clean-up, touches the code records, the claim marker or the mappings.  (Its clean-up only ever runs
+     once the period is over: invariant inv_purge.) *)
+  Theorem listing_harmless_while_valid s sched : start_ok s ->
+    expired (fst (srun s sched)) = false ->
+    forall t, In t (snd (srun s sched)) -> l_kind t = KList ->
+      by_code (snd (step t (fst (srun s sched)))) = by_code (fst (srun s sched)) /\
+      by_id (snd (step t (fst (srun s sched)))) = by_id (fst (srun s sched)) /\
+      claim (snd (step t (fst (srun s sched)))) = claim (fst (srun s sched)) /\
+      mains (snd (step t (fst (srun s sched)))) = mains (fst (srun s sched)).
+  Proof.
+    intros H Hexp t Ht Hk. destruct (inv_all s sched H) as [_ _ _ _ _ _ _ _ Ipurge].
+    apply In_nth_error in Ht. destruct Ht as [i Hi].
+    assert (Hp : in_purge t = false).
+    { destruct (in_purge t) eqn:E; [|reflexivity]. rewrite (Ipurge _ _ Hi E) in Hexp. discriminate. }
+    destruct (step t (fst (srun s sched))) as [t' s'] eqn:Hst.
+    destruct (step_facts P t _ t' s' Hst) as (_ & _ & _ & _ & _ & _ & Fl & _). cbn [snd].
+    exact (Fl Hk Hexp Hp).
   Qed.
 
   (* ---------- revocation against activation ---------- *)
@@ -402,7 +454,7 @@ Section Inv.
       nth_error (snd (srun s sched)) i = Some ti -> nth_error (snd (srun s sched)) j = Some tj ->
       won ti -> won tj -> i = j.
   Proof.
-    intros H i j ti tj Hi Hj Wi Wj. destruct (inv_all s sched H) as [_ _ _ Iwin _ _ Iok _].
+    intros H i j ti tj Hi Hj Wi Wj. destruct (inv_all s sched H) as [_ _ _ Iwin _ _ Iok _ _].
     assert (W : forall k t, nth_error (snd (srun s sched)) k = Some t -> won t -> can_win t = true).
     { intros k t Hk [[Hkind Hpc]|[m Hpc]].
       - unfold can_win. rewrite Hkind, Hpc. reflexivity.
@@ -469,7 +521,7 @@ Section Inv.
       snd (step t (fst (srun s sched))) = fst (srun s sched) /\
       exists e, l_pc (fst (step t (fst (srun s sched)))) = PRelAdm (RErr e).
   Proof.
-    intros H Hexp (tr & Hin & Hk & Hp). destruct (inv_all s sched H) as [_ Ifree _ _ _ _ _ _].
+    intros H Hexp (tr & Hin & Hk & Hp). destruct (inv_all s sched H) as [_ Ifree _ _ _ _ _ _ _].
     assert (Hc : claim (fst (srun s sched)) = true).
     { apply not_false_iff_true. intros E.
       apply In_nth_error in Hin. destruct Hin as [i Hi].
@@ -496,7 +548,8 @@ Section Inv.
   Qed.
 
   (* a code that is dead when the callers start never yields a mapping, whatever the schedule *)
-  Definition quiet (t : lo) : Prop := fresh t \/ (l_kind t = KTick /\ forall m, l_pc t <> PDone (ROk m)).
+  Definition quiet (t : lo) : Prop :=
+    fresh t \/ ((l_kind t = KTick \/ l_kind t = KList) /\ forall m, l_pc t <> PDone (ROk m)).
 
   Definition DeadInv (s : st sh lo) : Prop :=
     dead (by_code (fst s)) (expired (fst s)) = true /\ mains (fst s) = [] /\ forall t, In t (snd s) -> quiet t.
@@ -514,14 +567,14 @@ Section Inv.
     destruct (step t (fst s)) as [t' s'] eqn:Hst. cbn [fst snd].
     assert (Ht := Hf t (nth_error_In _ _ Hi)).
     assert (Goal : dead (by_code s') (expired s') = true /\ mains s' = [] /\ quiet t').
-    { unfold tstep in Hst. destruct (l_kind t) as [l la ok| |] eqn:Hk.
-      - destruct Ht as [[Hp|[e Hp]]|[Ht _]]; [| |congruence].
+    { unfold tstep in Hst. destruct (l_kind t) as [l la ok| | |] eqn:Hk.
+      - destruct Ht as [[Hp|[e Hp]]|[Ht _]]; [| |destruct Ht; congruence].
         + destruct (dead_at_get_returns_error t (fst s) l la ok Hk Hp Hd) as [Es [e He]].
           unfold tstep in Es, He. rewrite Hk, Hst in Es, He. cbn [fst snd] in Es, He. subst s'.
           split; [exact Hd|]. split; [exact Hm|]. left. right. exists e. exact He.
         + unfold act_step in Hst. rewrite Hp in Hst. inversion Hst; subst.
           split; [exact Hd|]. split; [exact Hm|]. left. right. exists e. exact Hp.
-      - destruct Ht as [[Hp|[e Hp]]|[Ht _]]; [| |congruence].
+      - destruct Ht as [[Hp|[e Hp]]|[Ht _]]; [| |destruct Ht; congruence].
         + unfold rev_step in Hst. rewrite Hp in Hst. unfold dead in Hd.
           destruct (by_code (fst s)) as [r|] eqn:Eb.
           * destruct (c_act r) eqn:Ea.
@@ -538,10 +591,28 @@ Section Inv.
           split; [exact Hd|]. split; [exact Hm|]. left. right. exists e. exact Hp.
       - assert (Q : forall m, l_pc t <> PDone (ROk m)).
         { destruct Ht as [[Hp|[e Hp]]|[_ Hq]]; [| |exact Hq]; intros m; rewrite Hp; discriminate. }
-        destruct (l_pc t) as [| | | | | | | | | | | | | | e0 | | r | | r] eqn:Hp; inversion Hst; subst; cbn [dead by_code expired mains set_expired];
+        destruct (l_pc t) as [| | | | | | | | | | | | | | e0 | | r | | r | | | | | | |] eqn:Hp; inversion Hst; subst; cbn [dead by_code expired mains set_expired];
           (split; [try reflexivity; exact Hd|]); (split; [exact Hm|]); right;
-          try (split; [cbn; exact Hk|cbn; intros m; discriminate]).
-        split; [exact Hk|]. rewrite Hp. exact Q. }
+          try (split; [left; cbn; exact Hk|cbn; intros m; discriminate]).
+        split; [left; exact Hk|]. rewrite Hp. exact Q.
+      - (* listing: deletes at most the (dead) code record, never creates *)
+        assert (Q : forall m, l_pc t <> PDone (ROk m)).
+        { destruct Ht as [[Hp|[e Hp]]|[_ Hq]]; [| |exact Hq]; intros m; rewrite Hp; discriminate. }
+        assert (K : l_kind t' = KList /\ (forall m, l_pc t' <> PDone (ROk m)) /\ mains s' = mains (fst s) /\
+                    (by_code s' = by_code (fst s) \/ by_code s' = None) /\ expired s' = expired (fst s)).
+        { unfold list_step in Hst.
+          destruct (l_pc t) as [| | | | | | | | | | | | | | e0 | | r | | r | | | | | | |] eqn:Hp;
+            cbn [purge_revoked use_claim Current andb] in Hst;
+            repeat match type of Hst with
+                   | context [match by_id ?x with _ => _ end] => destruct (by_id x)
+                   | context [if ?b then _ else _] => destruct b eqn:?
+                   end;
+            inversion Hst; subst; cbn; rewrite ?Hk;
+            (split; [reflexivity|]); (split; [try (intros m; discriminate); try (rewrite Hp; exact Q)|]);
+            (split; [reflexivity|]); (split; [auto|auto]). }
+        destruct K as (K1 & K2 & K3 & K4 & K5).
+        split; [|split; [congruence|right; split; [right; exact K1|exact K2]]].
+        rewrite K5. destruct K4 as [->| ->]; [exact Hd|reflexivity]. }
     destruct Goal as (G1 & G2 & G3). split; [exact G1|]. split; [exact G2|].
     intros x Hx. destruct (in_upd_nth _ _ _ _ Hx) as [->|Hx']; [exact G3|exact (Hf x Hx')].
   Qed.
@@ -625,4 +696,28 @@ Lemma pinned_revoke_race_refuted :
 Proof.
   vm_compute. split; [reflexivity|]. split; [reflexivity|]. split; [reflexivity|]. split; [|reflexivity].
   eexists. split; [right; left; reflexivity|reflexivity].
+Qed.
+
+(* read paths with side effects.  Schedule: the activator reads the code (valid) and pauses; the owner revokes it (4 steps)
+   and then lists its codes (2 steps of the call, + the clean-up if one is spawned); the activator goes on. *)
+Definition act_rev_list : list lo :=
+  [init_lo 0 (KAct 101 0 true) false None; init_lo 1 KRev false None; init_lo 2 KList false None].
+Definition purge_schedule : list nat := [0] ++ repeat 1 4 ++ repeat 2 8 ++ repeat 0 14.
+
+(* repaired code: a revoked code is listed, not purged; the claim stays; the activator is turned away *)
+Lemma current_list_after_revoke_keeps_claim :
+  let s := run sh lo (tstep Current P0) (s0 act_rev_list) purge_schedule in
+  finished (snd s) = true /\ oks (snd s) = 0 /\ mains (fst s) = [] /\ claim (fst s) = true /\
+  by_code (fst s) = Some {| c_act := false; c_rev := true; c_by := 0; c_map := 0 |}.
+Proof. vm_compute. repeat split. Qed.
+
+(* a listing whose clean-up also purges REVOKED codes (connCodeRepo.Delete releases the claim marker): the revoked code
+   creates a mapping — revocation and activation both succeed *)
+Lemma purge_revoked_refuted :
+  let s := run sh lo (tstep PurgeRevoked P0) (s0 act_rev_list) purge_schedule in
+  finished (snd s) = true /\ oks (snd s) = 1 /\ length (mains (fst s)) = 1 /\
+  (exists t, In t (snd s) /\ l_kind t = KRev /\ l_pc t = PDone RRevoked).
+Proof.
+  vm_compute. split; [reflexivity|]. split; [reflexivity|]. split; [reflexivity|].
+  eexists. split; [right; left; reflexivity|split; reflexivity].
 Qed.
